@@ -253,7 +253,10 @@ fn js_value_to_json_with_visited(
                             let props: Vec<_> = obj_ref
                                 .properties
                                 .iter()
-                                .filter(|(_, prop)| prop.enumerable())
+                                // symbol-keyed properties have no JSON form (as in JSON.stringify)
+                                .filter(|(k, prop)| {
+                                    prop.enumerable() && !matches!(k, PropertyKey::Symbol(_))
+                                })
                                 .map(|(k, p)| (k.to_string(), p.value.clone()))
                                 .collect();
                             drop(obj_ref); // Release borrow before recursive calls
